@@ -627,6 +627,11 @@ class Scripted(BaseStrategy):
                         raise RuntimeError("injected inside real_time()")
                 elif a["op"] == "raise":
                     raise RuntimeError("injected in %s" % phase)
+                elif a.get("on"):
+                    # a request for another market of the run (a hedge through the markets of the event)
+                    other = market.flumine.markets.markets.get(a["on"])
+                    if other is not None and other.market_book is not None:
+                        do_action(rec, self, other, None, a)
                 else:
                     do_action(rec, self, market, None, a)
         finally:
@@ -1166,13 +1171,19 @@ def instrument(rec, patches):
             for mb in event.event:
                 rec.upd_count[mb.market_id] += 1
                 rec.cur = {"mid": mb.market_id, "pt": ms_of(mb.publish_time_epoch)}
-            # events hold exactly one market book in simulation (one cache per stream file)
-            mb = event.event[0]
+            # an event holds one market book per market of the stream file (one, unless the file carries several
+            # markets: then every message re-delivers the last book of each of them, with its own publish time)
+            books = list(event.event)
             real_sdt = self.simulated_datetime
 
             class _SDT:  # emits the "upd" step right after the clock moved
+                i = -1
+
                 def __call__(_self, pt):
                     real_sdt(pt)
+                    _self.i += 1
+                    mb = books[min(_self.i, len(books) - 1)]
+                    rec.cur = {"mid": mb.market_id, "pt": ms_of(mb.publish_time_epoch)}
                     rec.last_upd = rec.step("upd", mid=mb.market_id, pt=ms_of(mb.publish_time_epoch), status=mb.status, k=rec.upd_count[mb.market_id], nbooks=len(event.event), will_close=False, limits={st.name: limits_of(st) for st in self.strategies})
 
                 def __getattr__(_self, name):
@@ -1461,6 +1472,7 @@ def strip(trace, compact=True):
     t.pop("rec", None)
     if compact and t.get("steps") and "si" not in t["steps"][0]:
         table, index, steps = [], {}, []
+        hw = -1
         for s in t["steps"]:
             s = dict(s)
             st = dict(s.pop("st"))
@@ -1471,6 +1483,8 @@ def strip(trace, compact=True):
                 index[key] = len(table)
             s["si"] = index[key]
             s["clock"] = clock
+            hw = max(hw, clock)
+            s["hw"] = hw        # high-water mark of the simulated clock (it steps back in files of several markets)
             steps.append(s)
         t["steps"] = steps
         t["states"] = table
